@@ -86,3 +86,9 @@ Proof. reflexivity. Qed.
 Lemma guards_LoadReplicationStatus_ok : guards_LoadReplicationStatus =
   [("err != nil", "return false, err"); ("v == """"", "return false, nil"); ("err != nil", "return false, errs.ErrJSONUnmarshal.Wrap(err).GenWithStackByArgs()")].
 Proof. reflexivity. Qed.
+
+(* Server.ReplicateFileToAllMembers (fix 5b2c3f7), the FileReplicater behind the interface: the walk over the member list has no return -
+   every member is offered the file ("offered to all members"); before the fix it returned at the first unreachable member *)
+Lemma skel_ReplicateFileToAllMembers_ok : skel_ReplicateFileToAllMembers =
+  [Call "GetMembers"; IfE "err != nil" [Ret] []; ForE [GoE [Call "replicateFileToMember"]]; Ret].
+Proof. reflexivity. Qed.
